@@ -950,6 +950,10 @@ func (L *verifC18Life) opReoffer(op verifC18LifeOp) {
 
 	s.updateSweeperInputs() // the collector's loop top has run since the last event
 	pi, pending := s.inputs[g.ops[k]]
+	if !viaUpdate || pending {
+		// the params are replaced as a whole.
+		L.deferred[k] = 0
+	}
 	live := L.liveReq(k) >= 0
 	state := SweepState(255)
 	if pending {
@@ -1383,7 +1387,7 @@ func verifC18RunLife(t *testing.T, vc *verifCtx, r *verifRng, c *verifC18LifeCas
 func TestVerifC18Lifecycle(t *testing.T) {
 	vc := verifStart(t, "C18", "lifecycle")
 	defer vc.Finish()
-	total := vc.N(16000, 1200000)
+	total := vc.N(16000, 2400000)
 	for i := 0; i < total; i++ {
 		if !vc.Mine(i) {
 			continue
